@@ -31,6 +31,9 @@ Fits(ty, val) ==
   \/ ty = "bool" /\ val.t \in {"b", "i"}
   \/ ty = "str" /\ val.t = "s"
   \/ ty = "obj" /\ val.t = "o"
+  \/ ty = "arri" /\ val.t = "ai"          \* a list of integers
+  \/ ty = "arrd" /\ val.t = "ad"          \* a list of floats
+  \/ ty = "pt" /\ val.t = "ai"            \* an instance of the struct's Python class (logged field by field)
 
 \* how the j-th input parameter is supplied by (pos, kw):  "pos" | "kw" | "both" | "none"
 How(c, pos, kw, j) ==
